@@ -180,6 +180,9 @@ func main() {
 				return
 			}
 			fmt.Fprintf(w, "ok %d %d %d\n", szx, num, b2u(more))
+		case f[0] == "xfer" && len(f) == 6:
+			// the codec inside a transfer (xfer.go): block <num> of a body of <body> bytes through the real block-wise layer
+			c19Xfer(f, w)
 		case f[0] == "size" && len(f) == 2:
 			s, _ := strconv.ParseUint(f[1], 10, 8)
 			fmt.Fprintf(w, "%d\n", blockwise.SZX(s).Size())
